@@ -56,16 +56,73 @@ MatrixSpellings ==
                    "M_INVALID_PARAM", "M_TOO_LARGE", "M_EXCLUSIVE", "M_RESOURCE_LIMIT_EXCEEDED", "M_CANNOT_LEAVE_SERVER_NOTICE_ROOM",
                    "M_WEAK_PASSWORD", "M_UNABLE_TO_AUTHORISE_JOIN", "M_UNABLE_TO_GRANT_JOIN", "M_BAD_ALIAS", "M_DUPLICATE_ANNOTATION",
                    "M_NOT_YET_UPLOADED", "M_CANNOT_OVERWRITE_MEDIA", "M_WRONG_ROOM_KEYS_VERSION", "M_URL_NOT_SET", "M_BAD_STATUS",
-                   "M_CONNECTION_FAILED", "M_CONNECTION_TIMEOUT", "M_THREEPID_MEDIUM_NOT_SUPPORTED"} ]
+                   "M_CONNECTION_FAILED", "M_CONNECTION_TIMEOUT", "M_THREEPID_MEDIUM_NOT_SUPPORTED"},
+    \* key verification framework, SAS
+    VerificationMethod |-> {"m.sas.v1", "m.qr_code.scan.v1", "m.qr_code.show.v1", "m.reciprocate.v1"},
+    KeyAgreementProtocol |-> {"curve25519", "curve25519-hkdf-sha256"},
+    HashAlgorithm |-> {"sha256"},
+    MessageAuthenticationCode |-> {"hkdf-hmac-sha256", "hkdf-hmac-sha256.v2"},
+    ShortAuthenticationString |-> {"decimal", "emoji"},
+    \* predefined push rules ("Predefined Rules")
+    PredefinedOverrideRuleId |-> {".m.rule.master", ".m.rule.suppress_notices", ".m.rule.invite_for_me", ".m.rule.member_event",
+                                  ".m.rule.is_user_mention", ".m.rule.contains_display_name", ".m.rule.is_room_mention",
+                                  ".m.rule.roomnotif", ".m.rule.tombstone", ".m.rule.reaction", ".m.rule.room.server_acl",
+                                  ".m.rule.suppress_edits"},
+    PredefinedContentRuleId |-> {".m.rule.contains_user_name"},
+    PredefinedUnderrideRuleId |-> {".m.rule.call", ".m.rule.encrypted_room_one_to_one", ".m.rule.room_one_to_one", ".m.rule.message",
+                                   ".m.rule.encrypted"},
+    \* VoIP
+    StreamPurpose |-> {"m.usermedia", "m.screenshare"},
+    HangupReason |-> {"ice_failed", "invite_timeout", "ice_timeout", "user_hangup", "user_media_failed", "user_busy", "unknown_error"},
+    \* cross-signing, secrets, key requests
+    KeyUsage |-> {"master", "self_signing", "user_signing"},
+    SecretName |-> {"m.cross_signing.master", "m.cross_signing.user_signing", "m.cross_signing.self_signing", "m.megolm_backup.v1"},
+    KeyDerivationAlgorithm |-> {"m.pbkdf2"},
+    KeyRequestAction |-> {"request", "request_cancellation"},
+    \* assorted
+    TokenType |-> {"Bearer"},
+    PublicRoomJoinRule |-> {"public", "knock"},
+    SpaceRoomJoinRule |-> {"public", "invite", "knock", "private", "restricted", "knock_restricted"},
+    StateResJoinRule |-> {"public", "invite", "knock", "restricted", "knock_restricted"},
+    ThumbnailMethod |-> {"crop", "scale"},
+    MessageFormat |-> {"org.matrix.custom.html"},
+    ServerNoticeType |-> {"m.server_notice.usage_limit_reached"},
+    LimitType |-> {"monthly_active_user"},
+    Recommendation |-> {"m.ban"},
+    \* enums of the API crates
+    EventFormat |-> {"client", "federation"},
+    RoomPreset |-> {"private_chat", "public_chat", "trusted_private_chat"},
+    ThirdPartyIdRemovalStatus |-> {"success", "no-support"},
+    ContactRole |-> {"m.role.admin", "m.role.security"},
+    RoomVersionStability |-> {"stable", "unstable"},
+    MembershipEventFilter |-> {"join", "invite", "leave", "ban", "knock"},
+    GroupingKey |-> {"room_id", "sender"},
+    SearchKeys |-> {"content.body", "content.name", "content.topic"},
+    OrderBy |-> {"recent", "rank"},
+    AuthType |-> {"m.login.password", "m.login.recaptcha", "m.login.email.identity", "m.login.msisdn", "m.login.sso", "m.login.dummy",
+                  "m.login.registration_token", "m.login.terms"},
+    IncludeThreads |-> {"all", "participated"},
+    FailureErrorCode |-> {"M_INVALID_SIGNATURE"},
+    ApiReceiptType |-> {"m.read", "m.read.private", "m.fully_read"},
+    ProfileField |-> {"displayname", "avatar_url"},
+    NotificationPriority |-> {"high", "low"},
+    IdentifierHashingAlgorithm |-> {"sha256", "none"} ]
+
+\* aliases whose canonical spelling is documented (the unstable name of a since-stabilised identifier)
+KnownAliases ==
+  [ MessageLikeEventType |-> [x \in {"org.matrix.call.sdp_stream_metadata_changed"} |-> "m.call.sdp_stream_metadata_changed"],
+    TimelineEventType |-> [x \in {"org.matrix.call.sdp_stream_metadata_changed"} |-> "m.call.sdp_stream_metadata_changed"] ]
 TableEnums == DOMAIN MatrixSpellings
 
 \* ---- laws (r is one observation; aliases is the set of declared alias spellings)
 Lossless(r, aliases) == r.s \notin aliases => r.out = r.s          \* never reject or alter an unknown value
 AliasLaw(r, aliases) == (r.s \in aliases /\ r.out # r.s) => ~r.custom   \* an alias maps to a declared (non catch-all) variant
 SpecifiedSpelling(r) == (r.enum \in TableEnums /\ r.s \in MatrixSpellings[r.enum]) => (~r.custom /\ r.out = r.s)
+\* "a declared alias maps to its canonical spelling"
+AliasTarget(r) == (r.enum \in DOMAIN KnownAliases /\ r.s \in DOMAIN KnownAliases[r.enum]) => (~r.custom /\ r.out = KnownAliases[r.enum][r.s])
 Idempotent(r) == r.idem                                            \* converting the result again changes nothing
 SerdeAgrees(r) == r.display = r.out /\ r.ser = r.out /\ r.de = r.out /\ r.fromstring = r.out
-Laws(r, aliases) == Lossless(r, aliases) /\ AliasLaw(r, aliases) /\ SpecifiedSpelling(r) /\ Idempotent(r) /\ SerdeAgrees(r)
+Laws(r, aliases) == Lossless(r, aliases) /\ AliasLaw(r, aliases) /\ AliasTarget(r) /\ SpecifiedSpelling(r) /\ Idempotent(r) /\ SerdeAgrees(r)
 
 \* ---- ordering / equality of two converted values agree with their string forms
 \* p == [enum, a, b, eq, lt, cmp]: cmp \in {-1, 0, 1} from Ord::cmp, lt from PartialOrd
